@@ -133,7 +133,7 @@ def gen_seq(rng):
 
 def run(ctx):
     rng = ctx.rng
-    n = ctx.scale(5000, 150000)
+    n = ctx.scale(5000, 40000)
     cases = []
     # corpus: exact-fit copy of a 7-byte string (the unrepaired code wrote 8 bytes past the capacity)
     cases.append((4, ["S" + b"abcdefg".hex()] + ["P"] * 29 + ["W0"], ["AllocPstr [97;98;99;100;101;102;103]"] + ["PushCell"] * 29 + ["CopyPstrWithin 7"], 1))
